@@ -21,7 +21,7 @@ TrParOf   == [c \in {"r", "core", "sfp", "asm", "blk", "cmp"} |-> Par]
 TrGridCls == {"core", "sfp", "asm", "blk"}
 TrMatCls  == {"cmp"}
 TrActs    == {"Enter", "Exit", "Assign", "AssignRO", "SetCache", "SetGrid", "DeepCopy", "Pickle", "MakeReadOnly",
-              "CallRO", "WriteDb", "LoadDb", "LoadDbRO", "ReadGrid"}
+              "CallRO", "WriteDb", "LoadDb", "LoadDbRO", "ReadGrid", "FreezeInScope"}
 TrFamilies == {"r", "core", "sfp", "asm", "blk", "cmp"}
 \* the recorder names the call; any name is accepted, the effect (none) is what is checked
 TrCalls   == [c \in TrFamilies |-> {"call"}]
@@ -43,6 +43,7 @@ TInit ==
     /\ dass = [c \in Classes |-> [p \in Par |-> NEVER]] /\ dbak = [c \in Classes |-> [p \in Par |-> <<>>]]
     /\ cache = [o \in Node |-> 0] /\ cachebak = [o \in Node |-> <<>>]
     /\ mcache = [o \in Node |-> 0] /\ mcachebak = [o \in Node |-> <<>>]
+    /\ dflag = [o \in Node |-> IF o <= Len(Traces[tid].init.dflag) THEN Traces[tid].init.dflag[o] ELSE 0]
     /\ gbak = [o \in Node |-> <<>>]
     /\ frames = <<>> /\ ro = [o \in Node |-> FALSE]
     /\ err = "" /\ act = [n |-> "Init"] /\ bad = {}
@@ -56,7 +57,8 @@ PostVal   == [x \in Node |-> IF x <= Len(Ev.post.val) THEN Ev.post.val[x] ELSE Z
 
 TStep ==
     \/ A.n = "Enter" /\ EnterK(A.r, KeepOf(A))
-    \/ A.n = "Exit" /\ Exit
+    \/ A.n = "Exit" /\ (Exit \/ ExitRefused)
+    \/ A.n \in {"CopyParams", "UpdateParams"} /\ ParamsFrom(A.n, A.o, A.src, PostVal, PostFn(Ev.post.rest), PostFn(Ev.post.cass), PostFn(Ev.post.link))
     \/ A.n = "Assign" /\ AssignV(A.o, A.p, A.v)
     \/ A.n = "AssignRO" /\ AssignROV(A.o, A.p, A.v)
     \/ A.n = "SetCache" /\ SetCacheV(A.o, A.w, A.tag)
@@ -67,17 +69,20 @@ TStep ==
     \/ A.n = "CallRO" /\ CallRO(A.o, "call")
     \/ A.n = "WriteDb" /\ WriteDb(A.r)
     \/ A.n \in {"LoadDb", "LoadDbRO"} /\ LoadDbV(A.n, FALSE, PostVal, PostFn(Ev.post.rest), PostFn(Ev.post.cass),
-                                                 PostFn(Ev.post.grid)) /\ act'.ids = A.ids
+                                                 PostFn(Ev.post.grid), PostFn(Ev.post.dflag)) /\ act'.ids = A.ids
     \/ A.n = "Havoc" /\ Havoc(A.o, SeqRange(A.touched), PostVal, PostFn(Ev.post.rest), PostFn(Ev.post.cass),
-                                 PostFn(Ev.post.cache), PostFn(Ev.post.mcache))
+                                 PostFn(Ev.post.cache), PostFn(Ev.post.mcache), PostFn(Ev.post.grid), PostFn(Ev.post.dflag))
 
 TObs == [k \in (DOMAIN Obs) \ {"dass"} |-> Obs[k]]
 \* `serial` is read by no action, so a disagreement about who shares a serial number cannot cascade: it is printed
 \* (the harness reports it) and the history goes on; any other disagreement ends the history
-CoreOf(o) == [k \in (DOMAIN o) \ {"sameSerialAs"} |-> o[k]]
+NonBlocking == {"sameSerialAs", "dflag"}     \* (dflag: Block.derivedMustUpdate is read by no action either)
+CoreOf(o) == [k \in (DOMAIN o) \ NonBlocking |-> o[k]]
 ObsMatch == \/ /\ CoreOf(TObs') = CoreOf(Ev.post)
                /\ \/ TObs'.sameSerialAs = Ev.post.sameSerialAs
                   \/ PrintT(ToJson([serial |-> Traces[tid].id, at |-> l, expected |-> TObs']))
+               /\ \/ TObs'.dflag = Ev.post.dflag
+                  \/ PrintT(ToJson([serial |-> Traces[tid].id, at |-> l, field |-> "dflag", expected |-> TObs']))
             \/ /\ CoreOf(TObs') # CoreOf(Ev.post)
                /\ PrintT(ToJson([mismatch |-> Traces[tid].id, at |-> l, expected |-> TObs']))
                /\ FALSE
